@@ -20,8 +20,10 @@ TECHNIQUE = ("exhaustive enumeration of (start version x server version subset x
 RULE = ("A case is: a starting protocol version (any of 1,2,3,4,5,6,0x41,0x42; v6 is beta), configured explicitly "
         "(Cluster(protocol_version=)) or implicitly (attribute default), allow_beta on/off, and 1-3 contact points each "
         "supporting a subset of the 8 versions (2^8), a subset of those as server-side beta, an error-text style "
-        "(Cassandra 2.x / 3.x+), and a rejection behaviour (ERROR at OPTIONS, SUPPORTED then ERROR at STARTUP, close, "
-        "silence).  The base product start x subset x explicit/implicit for one contact point is enumerated completely.  "
+        "(Cassandra 2.x / 3.x+), a rejection behaviour (ERROR at OPTIONS, SUPPORTED then ERROR at STARTUP, reset, orderly "
+        "close, silence), a schedule tape, and optionally a hand-off schedule: at chosen (or all) Event.set() calls the "
+        "thread woken by the event runs before the setting thread continues (the interleaving in which "
+        "Connection.factory wakes up inside the event loop's error handling).  The base product start x subset x explicit/implicit for one contact point is enumerated completely.  "
         "Observed: the version of the first frame of every connection attempt, the outcome of Cluster.connect(), "
         "Cluster.protocol_version, the versions of all later frames.  Non-trivial: at least one version was rejected by a "
         "server and (implicit) at least one downgrade step or (explicit) the attempt count was checked to be one per "
@@ -77,6 +79,9 @@ def handler(spec, guard):
         how = spec["reject"]
         if how == "close":
             return ("close",)
+        if how == "eof":
+            node.net.server_close(conn, eof=True)      # orderly close: the reactor calls close(), not defunct()
+            return ("drop",)
         if how == "silence":
             return ("drop",)
         if how == "startup" and req["op"] == "OPTIONS":
@@ -103,7 +108,17 @@ def interpret(case, ctx):
     sim = U.Sim(tape=case.get("tape", []), granularity="blocking", max_steps=20000)
     try:
         with sim:
-            _run(case, ctx, sim)
+            restore = None
+            if case.get("handoff"):
+                # the thread waiting in Connection.factory runs right after connected_event.set(), before the event
+                # loop thread executes its next statement
+                restore, hstats = S.handoff_events(sim, case["handoff"])
+            try:
+                _run(case, ctx, sim)
+            finally:
+                if restore is not None:
+                    restore()
+                    ctx.label("handoff-at-event-set" if hstats["handoffs"] else "handoff-unused")
     except U.StepBudgetExceeded:
         # termination is what the property promises
         ctx.fail(["C41.terminates", "step-budget"], "negotiation did not terminate within the step budget")
@@ -290,7 +305,7 @@ def s_node(draw):
         if top not in beta and draw(st.booleans()):
             beta.append(top)           # e.g. Cassandra 3.x: 5/v5-beta
     return {"versions": versions, "beta": sorted(beta), "text": draw(st.sampled_from(["new", "old"])),
-            "reject": draw(st.sampled_from(["options"] * 5 + ["startup", "startup", "close", "silence"]))}
+            "reject": draw(st.sampled_from(["options"] * 5 + ["startup", "startup", "close", "eof", "silence"]))}
 
 
 @st.composite
@@ -299,11 +314,28 @@ def s_case(draw):
     return {"start": start, "explicit": draw(st.sampled_from([False, False, True])),
             "allow_beta": draw(st.sampled_from([False, False, True])),
             "nodes": draw(st.lists(s_node(), min_size=1, max_size=3)),
-            "tape": draw(st.lists(st.integers(0, 3), max_size=6))}
+            "tape": draw(st.lists(st.integers(0, 3), max_size=6)),
+            "handoff": draw(st.sampled_from([None, None, "all", "all", "bits"])) and draw(
+                st.one_of(st.just("all"), st.lists(st.integers(0, 1), min_size=1, max_size=12)))}
+
+
+def handoff_cases(chunk):
+    """negotiations in which the waiter of every Event.set() runs before the setter continues"""
+    subsets = [[1], [3], [3, 4], [4, 5], [1, 2, 3], [3, 4, 0x41], [5, 6], [], [2, 5], [0x41, 0x42]]
+    for versions in subsets:
+        for reject, text in (("options", "new"), ("options", "old"), ("startup", "new")):
+            for explicit in (False, True):
+                yield {"start": chunk["start"], "explicit": explicit, "allow_beta": False, "handoff": "all", "tape": [],
+                       "nodes": [{"versions": versions, "beta": [6] if 6 in versions else [], "text": text, "reject": reject}]}
+    for versions in ([3, 4], [1]):
+        yield {"start": chunk["start"], "explicit": False, "allow_beta": False, "handoff": "all", "tape": [],
+               "nodes": [{"versions": [], "beta": [], "text": "new", "reject": "close"},
+                         {"versions": versions, "beta": [], "text": "new", "reject": "options"}]}
 
 
 def parts(tier):
     return [
         EnumPart("base-product", enum_chunks(), enum_cases, interpret),
+        EnumPart("handoff", [{"start": v} for v in ALL], handoff_cases, interpret),
         hyp_part("histories", s_case, interpret, tier, quick=100, thorough=2500, quick_shards=6, thorough_shards=16),
     ]
